@@ -109,6 +109,10 @@ CORPUS = [
      ["da", "bdc", "dc", "bda"]),
     ("regex-alt", "S: X+;\nX: A | B | C;\nterminals\nA: /a|b/;\nB: /[0-9]+|x/;\nC: /(?i)k(e|é)y|λ+/;\n",
      ["ab", "cb", "a 12 x", "KeY kéy λλ", "b9y", " λa"]),
+    # fancy_regex(true): look-ahead + nested quantifier; the long inputs without `;` exceed fancy_regex's backtrack limit
+    # (the engine returns Err, which the generated recognizer must treat as "no match")
+    ("fancy-backtrack", "S: Words Semi | Words;\nterminals\nWords: /(?:\\w+\\s?)+(?=;)/;\nSemi: ';';\n",
+     ["ab cd;", "ab", "a" * 24, ";"]),
     # F13 (property C11): two variants named SP2 -> outside `Gen.WF`, never compiled
     ("dup-kind", "S: S Ta {P2} | Ta;\nterminals\nTa: 'a';\n", []),
 ]
@@ -193,7 +197,10 @@ def gen_cases(rng, n_random, lit_budget):
     cases = []
     for name, text, inputs in CORPUS:
         for s7 in (SETTINGS[0], SETTINGS[2], SETTINGS[1]):
-            cases.append(Case(text, full_settings(s7), "corpus:" + name, inputs))
+            st = full_settings(s7)
+            if name.startswith("fancy"):
+                st[9] = "1"
+            cases.append(Case(text, st, "corpus:" + name, inputs))
     for f in load_findings():
         w = f.get("witness", {})
         if f.get("property") == "C08" and "grammar" in w:
@@ -403,8 +410,10 @@ pub fn verif_matrix(input: &str) -> String {
     positions.push(input.len());
     for (t, r) in RECOGNIZERS.iter().enumerate() {
         for &p in &positions {
-            if let Some(m) = r.recognize(&input[p..]) {
-                out += &format!(" {}@{}={}{}", t, p, m.len(), if input[p..].starts_with(m) { "" } else { "!" });
+            match std::panic::catch_unwind(std::panic::AssertUnwindSafe(|| r.recognize(&input[p..]))) {
+                Ok(Some(m)) => out += &format!(" {}@{}={}{}", t, p, m.len(), if input[p..].starts_with(m) { "" } else { "!" }),
+                Ok(None) => (),
+                Err(_) => out += &format!(" {}@{}=PANIC!", t, p),
             }
         }
     }
@@ -718,6 +727,9 @@ def mirror_tie(rep, cases, sel):
             # outcome class of the COMPILED generated parser vs the real runtime driven from the dumped table
             pa = (c.beh["A"]["P"].get(k) or "").split(" ")[0]
             pv = lf.klass(lc.results[k]) if k < len(lc.results) else ""
+            if pa == "panic" and pv in ("ok", "err"):
+                c.problems.append(("impl≠oracle", f"the compiled generated parser PANICS on input {inp!r} where the runtime driven from the "
+                                   f"computed table answers `{pv}` (settings {' '.join(c.settings)})"))
             if pa in ("ok", "err") and pv in ("ok", "err"):
                 rep.count("mirror:outcomes-compared")
                 if pa != pv:
